@@ -1,11 +1,461 @@
-//! C08 — check not built yet.
-use mc_core::Args;
-use serde_json::Value;
+//! C08 — proposals spend only spendable funds, each once, and balance exactly.
+//!
+//! Explicit-state breadth-first search over the real SQLite wallet. A state is a wallet database
+//! (snapshot) plus the reference model (chain description, lock table, stored pending
+//! transactions); operations lock / unlock / clear locks, store a pending transaction, scan new
+//! blocks (empty, or containing the pending transaction), rewind, fill a scan gap, and create
+//! proposals that lock their inputs. In every distinct state the whole request lattice is sent to
+//! the real proposal functions and every answer is judged against the generation-time ground truth.
+mod chain;
+mod model;
+mod oracle;
+mod uni;
 
-pub fn replay(_kind: &str, _case: &Value) -> Result<(), String> {
-    Err("C08: check not built".into())
+use std::collections::{BTreeMap, BTreeSet};
+use std::sync::atomic::{AtomicU64, Ordering};
+use std::sync::{Arc, Mutex, OnceLock};
+use std::time::Instant;
+
+use mc_core::{Args, Run, Tier};
+use serde_json::{json, Value};
+
+use crate::db::{self, Snapshot, Wallet};
+use crate::graph::{canon, par_map};
+
+use chain::Env;
+use model::{Alphabet, Model, Op, Step};
+use oracle::{Amt, Chg, Conf, Entry, LockPol, Pools, Rcpt, Req};
+
+fn env() -> &'static Env {
+    static ENV: OnceLock<Env> = OnceLock::new();
+    ENV.get_or_init(Env::build)
 }
 
-pub fn run(_args: &Args) -> i32 {
-    mc_core::machinery_error("C08: check not built")
+fn lock_req(entry: Entry, amt: u64, rcpt: Rcpt, conf: Conf, lockpol: LockPol, pools: Pools, lock: (u8, u32)) -> Req {
+    Req { entry, amt: Amt::Fixed(amt), rcpt, conf, lockpol, chg: Chg::Single, pools, everything: false, lock: Some(lock) }
+}
+
+fn alphabet(thorough: bool) -> Alphabet {
+    if thorough {
+        let mut locks = vec![];
+        for o in [0u8, 1] {
+            for s in 0..4usize {
+                for far in [false, true] {
+                    locks.push((o, s, far));
+                }
+            }
+        }
+        locks.push((0, 4, true));
+        Alphabet {
+            locks,
+            advance: vec![1, 2, 41],
+            rewind: vec![1, 3],
+            clear_b: true,
+            proposals: vec![
+                lock_req(Entry::Transfer, 30_000, Rcpt::Sapling, Conf::Min, LockPol::Exclude, Pools::All, (0, 0)),
+                lock_req(Entry::Transfer, 100_000, Rcpt::Sapling, Conf::Min, LockPol::Exclude, Pools::All, (1, 50)),
+                lock_req(Entry::Transfer, 100_000, Rcpt::Unified, Conf::Default, LockPol::PreferLockedX, Pools::All, (1, 50)),
+                lock_req(Entry::SendMax, 0, Rcpt::Sapling, Conf::Min, LockPol::Exclude, Pools::SaplingOnly, (0, 50)),
+                lock_req(Entry::Standard, 30_000, Rcpt::Unified, Conf::Default, LockPol::Exclude, Pools::All, (0, 50)),
+            ],
+        }
+    } else {
+        Alphabet {
+            locks: vec![(0, 0, false), (0, 1, true), (1, 0, true), (1, 1, false)],
+            advance: vec![1, 41],
+            rewind: vec![1],
+            clear_b: false,
+            proposals: vec![
+                lock_req(Entry::Transfer, 30_000, Rcpt::Sapling, Conf::Min, LockPol::Exclude, Pools::All, (0, 0)),
+                lock_req(Entry::Transfer, 100_000, Rcpt::Sapling, Conf::Min, LockPol::PreferLockedX, Pools::All, (1, 50)),
+            ],
+        }
+    }
+}
+
+struct Params {
+    thorough: bool,
+    max_depth: usize,
+    wall_cap_s: f64,
+    starts: Vec<usize>,
+}
+
+fn params(tier: Tier) -> Params {
+    let depth_env = std::env::var("C08_DEPTH").ok().and_then(|s| s.parse().ok());
+    let wall_env = std::env::var("C08_WALL").ok().and_then(|s| s.parse().ok());
+    match tier {
+        Tier::Quick => Params { thorough: false, max_depth: depth_env.unwrap_or(3), wall_cap_s: wall_env.unwrap_or(48.0), starts: vec![0, 1, 2] },
+        Tier::Thorough => Params { thorough: true, max_depth: depth_env.unwrap_or(6), wall_cap_s: wall_env.unwrap_or(660.0), starts: vec![0, 1, 2] },
+    }
+}
+
+struct Node {
+    snap: Arc<Snapshot>,
+    model: Model,
+    start: usize,
+    history: Vec<Op>,
+}
+
+fn state_key(w: &Wallet, m: &Model, start: usize) -> u128 {
+    let mut k = canon(w.db.conn());
+    k.extend_from_slice(format!("{m:?}").as_bytes());
+    // the lock columns are part of `canon` already; the start state is not part of the key: two
+    // histories from different start states that reach the same database and model are one state
+    let _ = start;
+    mc_core::key128(&k)
+}
+
+fn case_json(start: usize, ops: &[Op], req: Option<&Req>, thorough: bool) -> Value {
+    json!({"start": start, "ops": ops, "req": req, "thorough": thorough})
+}
+
+fn ops_key(env: &Env, start: usize, ops: &[Op]) -> String {
+    let name = env.starts[start].0;
+    let s: Vec<String> = ops
+        .iter()
+        .map(|o| match o {
+            Op::Lock { owner, set, far } => format!("Lock({},{},{})", ["X", "Y"][*owner as usize], model::LOCK_SETS[*set].join("+"), if *far { "tip+50" } else { "tip+1" }),
+            Op::Unlock { owner, note } => format!("Unlock({},{})", ["X", "Y"][*owner as usize], env.label(*note)),
+            Op::Clear { acct_b } => format!("ClearLocks({})", if *acct_b { "B" } else { "A" }),
+            Op::Store { p } => format!("StorePending(P{p})"),
+            Op::Advance { k } => format!("Advance({k})"),
+            Op::Mine { p } => format!("Mine(P{p})"),
+            Op::Rewind { back } => format!("Rewind(tip-{back})"),
+            Op::FillGap => "FillGap".into(),
+            Op::Propose { req } => format!("Propose[{}]", req.key()),
+        })
+        .collect();
+    format!("{name}:{}", s.join(";"))
+}
+
+/// Re-execute a case from scratch: `ops` from start state `start`, then either the single request
+/// `req` or (when absent) the whole lattice.
+fn check_case(start: usize, ops: &[Op], req: Option<&Req>, thorough: bool) -> Result<(), String> {
+    let env = env();
+    let mut w = db::new_wallet(&env.u, uni::RETENTION, false);
+    db::restore(w.db.conn_mut(), &env.starts[start].1);
+    w.refresh_accounts();
+    let mut m = Model::start(env, start);
+    for (i, op) in ops.iter().enumerate() {
+        match model::apply(env, &mut w, &m, op).map_err(|e| format!("step {i} {}: {e}", ops_key(env, start, &ops[i..=i])))? {
+            Step::Done(n, _) => m = n,
+            Step::Refused(_) => {}
+        }
+        model::check_locked_outputs(env, &mut w, &m).map_err(|e| format!("after step {i}: {e}"))?;
+    }
+    match req {
+        Some(r) => {
+            let ledger = m.ledger(env);
+            let mut cache = oracle::WitnessCache::default();
+            let mut max_paid = None;
+            if let Amt::MaxPlus(_) = r.amt {
+                let sm = Req { entry: Entry::SendMax, amt: Amt::Fixed(0), chg: Chg::Single, everything: false, lock: None, ..r.clone() };
+                max_paid = oracle::run_request(env, &mut w, &m, &ledger, &sm, &mut cache)?.paid;
+            }
+            oracle::run_request_with(env, &mut w, &m, &ledger, r, &mut cache, max_paid).map(|_| ())
+        }
+        None => {
+            let lat = oracle::lattice(thorough);
+            let (_, fails, _) = oracle::eval_state(env, &mut w, &m, &lat);
+            match fails.into_iter().next() {
+                Some((r, msg)) => Err(format!("[{}] {msg}", r.key())),
+                None => Ok(()),
+            }
+        }
+    }
+}
+
+pub fn replay(kind: &str, case: &Value) -> Result<(), String> {
+    if kind != "state" {
+        return Err(format!("unknown kind {kind}"));
+    }
+    let start = case["start"].as_u64().ok_or("case.start")? as usize;
+    let ops: Vec<Op> = serde_json::from_value(case["ops"].clone()).map_err(|e| e.to_string())?;
+    let req: Option<Req> = serde_json::from_value(case["req"].clone()).map_err(|e| e.to_string())?;
+    let thorough = case["thorough"].as_bool().unwrap_or(false);
+    check_case(start, &ops, req.as_ref(), thorough)
+}
+
+struct Found {
+    start: usize,
+    ops: Vec<Op>,
+    req: Option<Req>,
+    msg: String,
+}
+
+pub fn run(args: &Args) -> i32 {
+    let run = Run::new(args, "model_checking");
+    let pr = params(args.tier);
+    let t0 = Instant::now();
+    let env = env();
+    let t_setup = t0.elapsed().as_secs_f64();
+    let al = alphabet(pr.thorough);
+    let lat = oracle::lattice(pr.thorough);
+    run.set_rule(&format!(
+        "explicit-state BFS on the real SQLite wallet from {} start states (fully scanned / scanned with a gap at the start / scanned to a pre-NU6.3 tip) of the C08 universe; operations: lock_outputs(owner, note set, tip+1|tip+50), \
+         unlock_output, clear_locked_outputs, store_transactions_to_be_sent(real pending transaction), Advance(k blocks), Mine(pending), truncate_to_height, FillGap, proposals with a lock request; \
+         states matched on the canonical logical dump of the database + reference model; in every distinct state the request lattice [{}] is sent to the real proposal functions; \
+         a case is one (state, request) pair; it is distinct by (state key, request) and non-trivial because the state was reached through the real wallet API and the request was answered by the real selector",
+        pr.starts.len(),
+        lat.describe
+    ));
+    run.assume("confirmations are counted as in the ConfirmationsPolicy documentation (blocks since and including the mining block = target height - mined height); notes received under the internal key scope need `trusted` confirmations, all other receipts `untrusted` (no transaction of the universe is user-trusted, none shields transparent funds)");
+    run.assume("a lock is active while lock_expiry_height >= target height = chain tip + 1 (data_api/locking.rs); a stored transaction is unexpired while expiry_height >= target height (wallet/common.rs tx_unexpired_condition)");
+    run.assume("pending transactions are real Sapling-only transactions built once by create_proposed_transactions with the sapling mock provers and re-injected through store_transactions_to_be_sent; they spend no Orchard/Ironwood/transparent inputs (DESIGN.md stated bound)");
+    run.assume("the wallet holds no transparent funds: propose_shielding / propose_shielding_coinbase and transparent spend policies are not covered; any transparent input in a proposal is reported");
+    run.assume("the reference upper bound of spendable value counts every unspent, confirmed, not pending-spent, unlocked-or-overridable note of the permitted pools including dust; minimum fee = 10_000 (ZIP 317)");
+    run.assume("the anchor of a step must not be above target height minus the policy's trusted confirmations (ConfirmationsPolicy::anchor_height documentation); a lower (bucketed, ZIP 318) anchor is accepted");
+
+    let failures: Mutex<Vec<Found>> = Mutex::new(vec![]);
+    let outcomes: Mutex<BTreeMap<String, u64>> = Mutex::new(BTreeMap::new());
+    let add_outs = |o: Vec<String>| {
+        let mut g = outcomes.lock().unwrap();
+        for x in o {
+            *g.entry(x).or_insert(0) += 1;
+        }
+    };
+    let evals = AtomicU64::new(0);
+    let transitions = AtomicU64::new(0);
+    let skipped = AtomicU64::new(0);
+    let over = || t0.elapsed().as_secs_f64() > pr.wall_cap_s;
+    let mut seen: BTreeSet<u128> = BTreeSet::new();
+    let mut per_depth: Vec<u64> = vec![];
+    let mut states = 0u64;
+
+    // depth 0: the start states
+    let start_nodes: Vec<Option<(u128, Node)>> = par_map(
+        &pr.starts,
+        || db::new_wallet(&env.u, uni::RETENTION, false),
+        |w, &si| {
+            db::restore(w.db.conn_mut(), &env.starts[si].1);
+            w.refresh_accounts();
+            let m = Model::start(env, si);
+            let key = state_key(w, &m, si);
+            if let Err(msg) = model::check_locked_outputs(env, w, &m) {
+                failures.lock().unwrap().push(Found { start: si, ops: vec![], req: None, msg });
+            }
+            let snap = Arc::new(db::snapshot(w.db.conn()));
+            let (o, fails, n) = oracle::eval_state(env, w, &m, &lat);
+            evals.fetch_add(n, Ordering::Relaxed);
+            add_outs(o);
+            add_outs(vec![format!("state:start:{}", env.starts[si].0)]);
+            for (r, msg) in fails {
+                failures.lock().unwrap().push(Found { start: si, ops: vec![], req: Some(r), msg });
+            }
+            Some((key, Node { snap, model: m, start: si, history: vec![] }))
+        },
+    );
+    let mut frontier: Vec<Node> = vec![];
+    for (k, n) in start_nodes.into_iter().flatten() {
+        if seen.insert(k) {
+            states += 1;
+            frontier.push(n);
+        }
+    }
+    let mut cap: Option<String> = None;
+    let mut depth = 0usize;
+    let mut completed_depth = 0usize;
+    while !frontier.is_empty() {
+        per_depth.push(frontier.len() as u64);
+        if depth >= pr.max_depth {
+            break;
+        }
+        if over() {
+            cap = Some(format!("wall cap {}s reached before expanding depth {depth} ({} frontier states unexpanded)", pr.wall_cap_s, frontier.len()));
+            break;
+        }
+        if failures.lock().unwrap().len() >= 12 {
+            cap = Some("stopped after 12 failures".into());
+            break;
+        }
+        // phase 1: execute every enabled transition, compute the key of its target state
+        let items: Vec<(usize, Op)> = frontier.iter().enumerate().flat_map(|(i, n)| model::enabled(env, &al, &n.model).into_iter().map(move |op| (i, op))).collect();
+        let keys: Vec<Option<u128>> = par_map(
+            &items,
+            || db::new_wallet(&env.u, uni::RETENTION, false),
+            |w, (i, op)| {
+                if over() {
+                    skipped.fetch_add(1, Ordering::Relaxed);
+                    return None;
+                }
+                let src = &frontier[*i];
+                db::restore(w.db.conn_mut(), &src.snap);
+                w.refresh_accounts();
+                transitions.fetch_add(1, Ordering::Relaxed);
+                match model::apply(env, w, &src.model, op) {
+                    Err(msg) => {
+                        let mut ops = src.history.clone();
+                        ops.push(op.clone());
+                        failures.lock().unwrap().push(Found { start: src.start, ops, req: None, msg });
+                        None
+                    }
+                    Ok(Step::Refused(o)) => {
+                        add_outs(o.into_iter().map(|x| format!("op:{x}")).collect());
+                        None
+                    }
+                    Ok(Step::Done(m, o)) => {
+                        add_outs(o.into_iter().map(|x| format!("op:{x}")).collect());
+                        Some(state_key(w, &m, src.start))
+                    }
+                }
+            },
+        );
+        // deterministic representative of every new state: the first (frontier index, op) reaching it
+        let mut chosen: Vec<(usize, Op, u128)> = vec![];
+        for ((i, op), k) in items.iter().zip(keys.iter()) {
+            if let Some(k) = k {
+                if seen.insert(*k) {
+                    chosen.push((*i, op.clone(), *k));
+                }
+            }
+        }
+        if std::env::var("VERIF_PROGRESS").is_ok() {
+            eprintln!("depth {depth}: frontier {} transitions {} new states {} elapsed {:.1}s", frontier.len(), items.len(), chosen.len(), t0.elapsed().as_secs_f64());
+        }
+        // phase 2: re-create each new state, snapshot it, evaluate the request lattice in it
+        let next: Vec<Option<Node>> = par_map(
+            &chosen,
+            || db::new_wallet(&env.u, uni::RETENTION, false),
+            |w, (i, op, _)| {
+                if over() {
+                    skipped.fetch_add(1, Ordering::Relaxed);
+                    return None;
+                }
+                let src = &frontier[*i];
+                db::restore(w.db.conn_mut(), &src.snap);
+                w.refresh_accounts();
+                let mut ops = src.history.clone();
+                ops.push(op.clone());
+                let m = match model::apply(env, w, &src.model, op) {
+                    Ok(Step::Done(m, _)) => m,
+                    _ => {
+                        failures.lock().unwrap().push(Found { start: src.start, ops, req: None, msg: "transition did not reproduce when re-executed (non-determinism)".into() });
+                        return None;
+                    }
+                };
+                if let Err(msg) = model::check_locked_outputs(env, w, &m) {
+                    failures.lock().unwrap().push(Found { start: src.start, ops, req: None, msg });
+                    return None;
+                }
+                let snap = Arc::new(db::snapshot(w.db.conn()));
+                let (o, fails, n) = oracle::eval_state(env, w, &m, &lat);
+                evals.fetch_add(n, Ordering::Relaxed);
+                add_outs(o);
+                // state diversity
+                let mut tags = vec![];
+                if m.locks.values().any(|(_, e)| *e >= m.target()) {
+                    tags.push("state:has-active-lock");
+                }
+                if m.locks.values().any(|(_, e)| *e < m.target()) {
+                    tags.push("state:has-expired-lock");
+                }
+                if (0..env.pend.len()).any(|p| m.pending_active(env, p)) {
+                    tags.push("state:has-unexpired-pending");
+                }
+                if (0..env.pend.len()).any(|p| m.stored.contains(&p) && m.chain.mined_at(p).is_none() && env.pend[p].expiry < m.target()) {
+                    tags.push("state:has-expired-pending");
+                }
+                if (0..env.pend.len()).any(|p| m.stored.contains(&p) && m.chain.mined_at(p).is_none() && env.pend[p].expiry == m.target()) {
+                    tags.push("state:pending-expiry-equals-target");
+                }
+                if (0..env.pend.len()).any(|p| m.chain.mined_at(p).is_some()) {
+                    tags.push("state:pending-mined");
+                }
+                if m.target() < uni::N63 {
+                    tags.push("state:target-pre-nu6.3");
+                } else {
+                    tags.push("state:target-post-nu6.3");
+                }
+                if m.scanned_from > uni::F {
+                    tags.push("state:scan-gap-open");
+                }
+                add_outs(tags.into_iter().map(String::from).collect());
+                let bad = !fails.is_empty();
+                for (r, msg) in fails {
+                    failures.lock().unwrap().push(Found { start: src.start, ops: ops.clone(), req: Some(r), msg });
+                }
+                if bad {
+                    return None; // do not explore beyond a violating state
+                }
+                Some(Node { snap, model: m, start: src.start, history: ops })
+            },
+        );
+        let sk = skipped.load(Ordering::Relaxed);
+        states += chosen.len() as u64;
+        let mut nf: Vec<Node> = next.into_iter().flatten().collect();
+        nf.sort_by(|a, b| (a.start, &a.history).cmp(&(b.start, &b.history)));
+        frontier = nf;
+        depth += 1;
+        if sk > 0 {
+            cap = Some(format!("wall cap {}s reached while expanding depth {}: {sk} transition/state evaluations of that level not executed", pr.wall_cap_s, depth - 1));
+            per_depth.push(frontier.len() as u64);
+            break;
+        }
+        completed_depth = depth;
+    }
+    let transitions = transitions.load(Ordering::Relaxed);
+    let evals = evals.load(Ordering::Relaxed);
+    run.add_graph(states, transitions, transitions + evals);
+    run.add_evaluations(evals + transitions);
+    run.eval_distinct_only(evals + states.saturating_sub(pr.starts.len() as u64));
+    let outcomes = outcomes.into_inner().unwrap();
+    for (k, v) in &outcomes {
+        run.outcome_n(k, *v);
+    }
+    run.section(
+        "search",
+        json!({
+            "universe": {"first": uni::F, "tip": uni::T0, "nu6_3": uni::N63, "notes": env.u.notes.len(), "retention_interval": uni::RETENTION},
+            "start_states": env.starts.iter().map(|s| json!({"name": s.0, "scanned_from": s.2, "tip": s.3})).collect::<Vec<_>>(),
+            "pending": env.pend.iter().map(|p| json!({"spends": p.spends.iter().map(|i| env.u.notes[*i].label).collect::<Vec<_>>(), "build_target": p.build_target, "expiry": p.expiry, "fee": p.fee, "outputs": p.outs.iter().map(|o| json!({"owner": format!("{:?}", o.owner), "value": o.value})).collect::<Vec<_>>()})).collect::<Vec<_>>(),
+            "alphabet": {"locks": al.locks.iter().map(|(o, s, far)| format!("{}:{}:{}", ["X","Y"][*o as usize], model::LOCK_SETS[*s].join("+"), if *far {"tip+50"} else {"tip+1"})).collect::<Vec<_>>(),
+                         "advance": al.advance, "rewind_back": al.rewind, "clear_b": al.clear_b, "lock_taking_proposals": al.proposals.iter().map(|r| r.key()).collect::<Vec<_>>()},
+            "lattice_requests_per_state": lat.reqs.len(),
+            "max_depth": pr.max_depth, "completed_depth": completed_depth, "per_depth_frontier": per_depth,
+            "states": states, "transitions": transitions, "proposal_calls": evals, "setup_s": t_setup, "capped": cap,
+        }),
+    );
+    if let Some(c) = &cap {
+        run.cap_hit(c);
+    } else if per_depth.len() > pr.max_depth && per_depth.last().copied().unwrap_or(0) > 0 {
+        run.cap_hit(&format!("depth bound {} reached with a non-empty frontier of {} states", pr.max_depth, per_depth.last().unwrap()));
+    }
+    run.sample(case_json(0, &[Op::Lock { owner: 0, set: 0, far: false }, Op::Advance { k: 1 }], Some(&lat.reqs[0]), pr.thorough));
+    run.sample(case_json(0, &[Op::Store { p: 0 }, Op::Advance { k: 41 }], Some(&lat.reqs[1]), pr.thorough));
+    run.sample(case_json(1, &[Op::FillGap, Op::Lock { owner: 1, set: 1, far: true }], None, pr.thorough));
+
+    let mut f = failures.into_inner().unwrap();
+    f.sort_by(|a, b| (a.ops.len(), a.start, &a.ops, &a.req).cmp(&(b.ops.len(), b.start, &b.ops, &b.req)));
+    let total_fail = f.len();
+    if total_fail > 0 {
+        run.section("failures_found", json!({"total": total_fail, "reported": total_fail.min(8)}));
+    }
+    for x in f.into_iter().take(8) {
+        let key = format!("{}|{}", ops_key(env, x.start, &x.ops), x.req.as_ref().map(|r| r.key()).unwrap_or("-".into()));
+        run.fail("state", key, x.msg, case_json(x.start, &x.ops, x.req.as_ref(), pr.thorough));
+    }
+    let has = |k: &str| outcomes.contains_key(k) || run.failure_count() > 0;
+    for k in [
+        "transfer:ok",
+        "standard:ok",
+        "sendmax:ok",
+        "transfer:err:InsufficientFunds",
+        "ok:locked-note-skipped",
+        "ok:pending-spent-note-skipped",
+        "ok:unconfirmed-note-skipped",
+        "ok:spent-through-overridable-lock",
+        "ok:used-note-with-expired-lock",
+        "ok:steps=2",
+        "op:lock:refused:foreign-active-lock",
+        "op:lock:ok:same-owner-relock",
+        "op:store:ok",
+        "op:mine",
+        "state:has-expired-pending",
+        "state:target-pre-nu6.3",
+        "state:target-post-nu6.3",
+    ] {
+        run.require(has(k), &format!("outcome `{k}` never occurred"));
+    }
+    run.require(run.outcomes_distinct() >= 20 || run.failure_count() > 0, "vacuous exploration");
+    run.finish(&replay)
 }
